@@ -87,10 +87,6 @@ structure GetArgs (V : Type) where
   ageBuckets : Nat := 0    -- summary
   objectives : List V := []  -- summary
 
-def strictlyIncreasing : List V → Bool
-  | a :: b :: rest => !(NumOps.ge a b) && strictlyIncreasing (b :: rest)
-  | _ => true
-
 /-- the bounds client_golang keeps: a trailing +Inf is implicit -/
 def effBounds (bs : List V) : List V :=
   match bs.getLast? with
